@@ -36,7 +36,7 @@ pub unsafe fn ptr_to_idx(
 }
 
 /// A haystack of symbolic length `MIN..=MAX` at symbolic offset `< ALIGN`
-/// inside a 64-aligned buffer of `CAP >= MAX + ALIGN - 1` bytes.
+/// inside a buffer of `CAP >= MAX + ALIGN - 1` bytes.
 #[cfg(kani)]
 #[inline(always)]
 pub fn sym_window<const CAP: usize>(
@@ -51,6 +51,18 @@ pub fn sym_window<const CAP: usize>(
     kani::assume(len >= min && len <= max);
     kani::assume(off + len <= CAP);
     (buf, off, len)
+}
+
+/// Flush-right window: the haystack always ENDS exactly at the end of its
+/// object (`off = CAP - len`), so any read past the end leaves the object; the
+/// start alignment then varies with the length.
+#[cfg(kani)]
+#[inline(always)]
+pub fn flush_window<const CAP: usize>(min: usize) -> (Buf<CAP>, usize, usize) {
+    let buf = Buf::<CAP>::any();
+    let len: usize = kani::any();
+    kani::assume(len >= min && len <= CAP);
+    (buf, CAP - len, len)
 }
 
 // ---------------------------------------------------------------------------
@@ -192,7 +204,9 @@ pub mod swar {
     use memchr::arch::all::memchr::{One, Three, Two};
 
     pub fn find<const CAP: usize>(which: u8, rev: bool, max: usize) {
-        let (buf, off, len) = sym_window::<CAP>(0, max, 8);
+        let (buf, off, len) =
+            if max == 0 { flush_window::<CAP>(0) } else { sym_window::<CAP>(0, max, 8) };
+        let max = if max == 0 { CAP } else { max };
         let h = place(&buf.0[off..off + len]);
         let (n1, n2, n3): (u8, u8, u8) = (kani::any(), kani::any(), kani::any());
         let ri = match (which, rev) {
@@ -301,7 +315,9 @@ pub mod x86 {
 
     /// isa: 0 = sse2, 1 = avx2 (availability forced through the hook).
     pub fn find<const CAP: usize>(isa: u8, which: u8, rev: bool, min: usize, max: usize, align: usize) {
-        let (buf, off, len) = sym_window::<CAP>(min, max, align);
+        let (buf, off, len) =
+            if align == 0 { flush_window::<CAP>(min) } else { sym_window::<CAP>(min, max, align) };
+        let align = if align == 0 { 1 } else { align };
         let h = place(&buf.0[off..off + len]);
         let (n1, n2, n3): (u8, u8, u8) = (kani::any(), kani::any(), kani::any());
         if isa == 1 {
@@ -630,3 +646,16 @@ inst!(avx2_two_raw, [props=C01+C14 xprops=C05 tier=quick cfg=x86std t=1800 role=
 #[cfg(any(vcfg_x86std, vcfg_x86none, vcfg_x86alloc, vcfg_x86avx2, vcfg_x86rel))]
 inst!(avx2_two_rraw, [props=C02 xprops=C05+C14 tier=thorough cfg=x86std t=1800 role=avx2-raw uw=find_raw.0:2;find_raw.1:4;byte_by_byte:17], 3,
     x86::raw::<40>(1, 2, true));
+
+// flush-right placements (C05): every length 0..=CAP with the haystack ending
+// exactly at the end of its object
+inst!(swar_one_find_flush, [props=C05+C01 xprops=C14 tier=quick cfg=x86std t=900 role=swar-find-flush uw=One::find_raw.0:4;byte_by_byte:18], 18,
+    swar::find::<32>(1, false, 0));
+inst!(swar_three_rfind_flush, [props=C05+C02 xprops=C14 tier=quick cfg=x86std t=900 role=swar-rfind-flush uw=Three::rfind_raw.0:6;byte_by_byte:10], 10,
+    swar::find::<32>(3, true, 0));
+#[cfg(any(vcfg_x86std, vcfg_x86none, vcfg_x86alloc, vcfg_x86avx2, vcfg_x86rel))]
+inst!(sse2_one_find_flush, [props=C05+C01 xprops=C14 tier=quick cfg=x86std t=1500 role=sse2-find-flush uw=find_raw.0:2;find_raw.1:4;byte_by_byte:17], 3,
+    x86::find::<40>(0, 1, false, 0, 40, 0));
+#[cfg(any(vcfg_x86std, vcfg_x86none, vcfg_x86alloc, vcfg_x86avx2, vcfg_x86rel))]
+inst!(sse2_three_rfind_flush, [props=C02 xprops=C05+C14 tier=thorough cfg=x86std t=1500 role=sse2-rfind-flush uw=find_raw.0:2;find_raw.1:4;byte_by_byte:17], 3,
+    x86::find::<40>(0, 3, true, 0, 40, 0));
